@@ -104,8 +104,19 @@ func init() {
 					wg.Add(1)
 					vrt.Go("cli-writer", func() {
 						defer wg.Done()
+						if c.P("emptywrite", "0") == "1" && nd > 0 {
+							// "all payload lengths (including zero bytes)": a zero-length Write writes nothing and uses nothing up
+							if n, err := cs.Write(nil); n != 0 || err != nil {
+								vrt.Fail("write-before-close", "a zero-length Write returned %d, %v", n, err)
+							}
+						}
 						if nd > 0 {
 							n, err := cs.Write(data)
+							if c.P("emptywrite", "0") == "1" && err == nil {
+								if n0, err0 := cs.Write([]byte{}); n0 != 0 || err0 != nil {
+									vrt.Fail("write-before-close", "a zero-length Write after the data returned %d, %v", n0, err0)
+								}
+							}
 							if err != nil || n != nd {
 								if mode == "simul" && errors.Is(err, ErrBrokenStream) {
 									// the peer's close may legitimately overtake our write
@@ -241,6 +252,8 @@ func init() {
 		jobs := []vx.Job{
 			{Scenario: "mux.close", Params: vx.P("data", "0"), Bound: b(2, 3), Weight: 3},
 			{Scenario: "mux.close", Params: vx.P("data", "5"), Bound: b(2, 3), Weight: 5},
+			{Scenario: "mux.close", Params: vx.P("data", "5", "emptywrite", "1"), Bound: b(1, 2), Weight: 4},
+			{Scenario: "mux.close", Params: vx.P("data", "300", "conns", "3", "emptywrite", "1", "delay", "1"), Bound: b(1, 2), Weight: 6},
 			{Scenario: "mux.close", Params: vx.P("data", "600", "rbuf", "100"), Bound: b(1, 2), Weight: 9},
 			{Scenario: "mux.close", Params: vx.P("data", "300", "conns", "3", "delay", "1"), Bound: b(2, 3), Weight: 8},
 			{Scenario: "mux.close", Params: vx.P("data", "300", "conns", "1"), Bound: b(2, 3), Weight: 4},
